@@ -259,15 +259,17 @@ func (w *world) genCommonAttr(k int, key string, depth int) slog.Attr {
 	case 10:
 		return slog.Any(key, plain{w.uniq, "x y"})
 	case 11:
-		return slog.Attr{Key: key, Value: slog.GroupValue(w.genAttrs(1+ch("attr.n", 2), depth+1)...)}
+		// groups have 0..2 members: slog drops an EMPTY group from a record before
+		// any handler sees it, With hands it to the handler
+		return slog.Attr{Key: key, Value: slog.GroupValue(w.genMembers(depth)...)}
 	case 12:
 		simrt.Probe("inline_group")
-		return slog.Attr{Key: "", Value: slog.GroupValue(w.genAttrs(1+ch("attr.n", 2), depth+1)...)}
+		return slog.Attr{Key: "", Value: slog.GroupValue(w.genMembers(depth)...)}
 	case 13:
 		if ch("attr.lv", 2) == 0 {
 			return slog.Any(key, lvScalar{w.token("lv")})
 		}
-		return slog.Any(key, lvGroup{w.genAttrs(1+ch("attr.n", 2), depth+1)})
+		return slog.Any(key, lvGroup{w.genMembers(depth)})
 	default:
 		if ch("attr.long", 4) == 0 {
 			// around the 16 KiB limit of the buffer pool, on both sides
@@ -281,6 +283,14 @@ func (w *world) genCommonAttr(k int, key string, depth int) slog.Attr {
 		}
 		return slog.Any(key, []byte("bytes "+w.token("b")))
 	}
+}
+
+func (w *world) genMembers(depth int) []slog.Attr {
+	n := []int{1, 2, 1, 0}[simrt.Choose("attr.n", 4)]
+	if n == 0 {
+		simrt.Probe("empty_group")
+	}
+	return w.genAttrs(n, depth+1)
 }
 
 func (w *world) genAttrs(n, depth int) []slog.Attr {
@@ -655,6 +665,16 @@ func (w *world) reference(r *record) string {
 	return buf.String()
 }
 
+// effectivelyEmpty: no attribute, or nothing but empty groups.
+func effectivelyEmpty(attrs []slog.Attr) bool {
+	for _, a := range attrs {
+		if a.Value.Kind() != slog.KindGroup || len(a.Value.Group()) > 0 {
+			return false
+		}
+	}
+	return true
+}
+
 // folded: a fresh, underived root logging one record whose attribute list is
 // the chain folded into call-site form. ok=false when some group would end up
 // empty (slog drops empty groups from a record, a handler sees them in With).
@@ -663,7 +683,10 @@ func (w *world) folded(r *record) (string, bool) {
 	for i := len(r.node.chain) - 1; i >= 0; i-- {
 		s := r.node.chain[i]
 		if s.group != "" {
-			if len(acc) == 0 {
+			// WithGroup(g) followed by nothing (or by nothing but empty groups,
+			// which slog removes when a group value is built) has no call-site
+			// form: a group attribute with no members never reaches a handler
+			if effectivelyEmpty(acc) {
 				return "", false
 			}
 			acc = []slog.Attr{{Key: s.group, Value: slog.GroupValue(acc...)}}
